@@ -280,6 +280,9 @@ func call(r request) grant {
 	}
 	if wantNames() && (r.kind < NUnlock || r.kind == nSpawnTimer || r.kind == nSpawnTicker) && r.label == "" {
 		r.label = callerFunc()
+		if r.label == "" {
+			r.label = r.kind.String()
+		}
 	}
 	raceDisable()
 	reqCh <- r
@@ -310,7 +313,7 @@ func callerFunc() string {
 			return fn
 		}
 		if !more {
-			return "?"
+			return ""
 		}
 	}
 }
